@@ -133,7 +133,13 @@ func (it *NativeIterator) Merge(oldval []byte) (val []byte, err error) {
 	if newTS == oldTS && bytes.Compare(actualOldVal, entryVal) <= 0 {
 		// Same timestamp, lexicographic lower app value wins for deterministic values,
 		// so return the old value if the plain value was lower or equal.
-		return oldval, nil
+		// On a full tie between a live empty value and a deletion marker, the
+		// deletion marker wins on every instance, otherwise each side would keep
+		// what it has forever.
+		newDeleted := entry.MaskedFlags().IsDeleted() || (len(entryVal) == 0 && it.FormatVersion < 2)
+		if !(len(actualOldVal) == 0 && len(entryVal) == 0 && newDeleted && !h.Flags.IsDeleted()) {
+			return oldval, nil
+		}
 	}
 	// Update LMDB value
 	return it.addHeader(entryVal, newTS, entry.MaskedFlags(), false)
